@@ -180,6 +180,7 @@ Proof.
   - destruct (get sh d n); inv_pair Hs; auto.
   - inv_pair Hs. now apply set_entry_keeps.
   - destruct (file_of cfg d n) as [fv|]; [|inv_pair Hs; auto].
+    destruct (file_bad cfg d n); [inv_pair Hs; auto|].
     pose proof (set_entry_keeps sh d n (Some fv) d0 n0 v Hb) as Hk.
     destruct (set_entry sh d n (Some fv)) as [sh1 [r1|]]; inv_pair Hs; auto.
   - destruct r0; inv_pair Hs; auto.
@@ -337,15 +338,18 @@ Proof.
     split; [auto|split; [cbn; auto | intros ? ? ? ? []]].
   - (* PMarked *) destruct Hwf as (Hd & Hr & Hf).
     destruct (file_of cfg d n) as [fv|]; [|congruence].
+    destruct (file_bad cfg d n).
+    { inv_pair Hs. split; [auto|split; [cbn; repeat split; auto; discriminate | intros ? ? ? ? [H|[]]; inversion H]]. }
     destruct (set_entry sh d n (Some fv)) as [sh1 [r1|]] eqn:Hse; inv_pair Hs.
     + split; [auto|split; [cbn; repeat split; auto | intros ? ? ? ? [H|[]]; inversion H]].
       intros w Hw. inversion Hw as [Hg]. cbn. now apply get_val.
     + split; [auto|split; [cbn; repeat split; auto; discriminate | intros ? ? ? ? [H|[]]; inversion H]].
   - (* PUnlocked *) destruct Hwf as (Hd & Hr & Hv).
-    destruct r as [e|]; inv_pair Hs.
+    destruct r as [e|]; [|destruct (file_bad cfg d n)]; inv_pair Hs.
     + eapply outcome_move_ok with (l := l) (n := n); [eassumption | auto |].
       apply next_level_ok; auto.
       intros v Hev. subst e. exists d; split; [auto | cbn; apply Hv; reflexivity].
+    + split; [auto|split; [exact I|]]. intros ? ? ? ? [H|[]]; inversion H.
     + split; [auto|split; [exact I|]]. intros ? ? ? ? [H|[]]; inversion H.
 Qed.
 
@@ -382,6 +386,7 @@ Proof.
   - destruct (get sh d n); inv_pair Hs; auto.
   - inv_pair Hs. apply set_entry_new in Hb. destruct Hb as [|(_ & _ & H)]; [auto|discriminate].
   - destruct (file_of cfg d n) as [fv|] eqn:Hf; [|inv_pair Hs; auto].
+    destruct (file_bad cfg d n); [inv_pair Hs; auto|].
     pose proof (set_entry_new sh d n (Some fv) d0 n0 v) as Hn.
     destruct (set_entry sh d n (Some fv)) as [sh1 [r1|]]; inv_pair Hs; cbn in Hb;
       (destruct (Hn Hb) as [|(-> & -> & H)]; [auto|inversion H; subst; auto]).
@@ -478,13 +483,18 @@ Qed.
 Definition no_define_over_file (cfg : config) (p : prog) : Prop :=
   forall t l n v, In (ODefine l n v) (nth t p []) -> file_of cfg l n = None.
 
-Definition res_ok (p : prog) (o : op) (r : res) : Prop :=
+Definition res_ok (cfg : config) (p : prog) (o : op) (r : res) : Prop :=
   r <> RFault /\
-  (r = RErr -> exists l n v, o = ODefine l n v /\ exists t' v', In (ODefine l n v') (nth t' p []) /\ veq v' v = false).
+  (r = RErr -> exists l n v, o = ODefine l n v /\ exists t' v', In (ODefine l n v') (nth t' p []) /\ veq v' v = false) /\
+  (r = RFileErr -> exists l n d, o = OLoad l n /\ In d (chain cfg l) /\ file_bad cfg d n = true).
+
+(* a thread that is unwinding a panic of the instantiator is doing so because the file is broken *)
+Definition nopanic (cfg : config) (p' : pc) : Prop :=
+  forall l n d lk rest, p' = PUnlocked l n d lk None rest -> file_bad cfg d n = true.
 
 Record inv2 (cfg : config) (p : prog) (st : state) : Prop := {
-  i2_nopanic : forall t l n d lk rest, t_pc (st_thr st t) <> PUnlocked l n d lk None rest;
-  i2_log : forall t o r, In (EvRes t o r) (st_log st) -> res_ok p o r
+  i2_nopanic : forall t, nopanic cfg (t_pc (st_thr st t));
+  i2_log : forall t o r, In (EvRes t o r) (st_log st) -> res_ok cfg p o r
 }.
 
 Lemma finish_load_evs t l n e t' o r :
@@ -519,29 +529,37 @@ Proof.
   destruct e; try apply next_level_pc. cbn; discriminate.
 Qed.
 
-Lemma found_ok p o x : res_ok p o (RFound x).
-Proof. split; [discriminate|]. discriminate. Qed.
+Lemma found_ok cfg p o x : res_ok cfg p o (RFound x).
+Proof. split; [discriminate|split; discriminate]. Qed.
+
+Lemma defined_ok cfg p o x : res_ok cfg p o (RDefined x).
+Proof. split; [discriminate|split; discriminate]. Qed.
+
+Lemma bool_ok cfg p o x : res_ok cfg p o (RBool x).
+Proof. split; [discriminate|split; discriminate]. Qed.
 
 Lemma pair_fst_snd {A B} (x : A * B) a b : x = (a, b) -> a = fst x /\ b = snd x.
 Proof. intros ->; auto. Qed.
 
+Ltac np := let H := fresh "Hnp_" in intros ? ? ? ? ? H; discriminate H.
+
 Ltac use_outcome lpc levs :=
   match goal with H : ?x = (?p', ?evs) |- _ =>
     destruct (pair_fst_snd _ _ _ H) as [-> ->]; clear H;
-    split; [intros; apply lpc
+    split; [let Hp := fresh "Hp" in intros ? ? ? ? ? Hp; exfalso; revert Hp; apply lpc
            | let Hin := fresh "Hin" in intros ? ? ? Hin; apply levs in Hin; destruct Hin as [? ->]; apply found_ok] end.
 
 
 Lemma inv2_init cfg p : inv2 cfg p (init p).
-Proof. split; cbn; [discriminate | intros ? ? ? []]. Qed.
+Proof. split; cbn; [intros _; np | intros ? ? ? []]. Qed.
 
 Lemma inv2_step cfg p st t :
   no_define_over_file cfg p -> inv1 cfg p st -> inv2 cfg p st -> inv2 cfg p (step cfg st t).
 Proof.
   intros Hnd [Htodo Hbind Hwf _] [Hnp Hlog].
   destruct (step_cases cfg st t) as [He | (sh' & p' & todo' & evs & Hm & He)]; rewrite He; [split; auto|].
-  assert (Hnew : (forall l n d lk rest, p' <> PUnlocked l n d lk None rest) /\
-                 (forall t' o r, In (EvRes t' o r) evs -> res_ok p o r)).
+  assert (Hnew : nopanic cfg p' /\
+                 (forall t' o r, In (EvRes t' o r) evs -> res_ok cfg p o r)).
   { destruct Hm as [(_ & o & Ht & Hs) | (Hpc & _ & Hs)].
     - (* start *)
       assert (Hop : In o (nth t p [])) by (apply Htodo; rewrite Ht; now left).
@@ -549,40 +567,47 @@ Proof.
       + destruct (chain cfg l) as [|d0 rest] eqn:Hc; [now apply chain_nonempty in Hc|]. inv_pair Hs.
         use_outcome after_read_pc after_read_evs.
       + destruct (set_entry (st_sh st) l n (Some v)) as [sh1 [[r1|]|]] eqn:Hse; inv_pair Hs.
-        * split; [discriminate|]. intros t' o r [H|[]]; inversion H; subst. split; discriminate.
+        * split; [np|]. intros t' o r [H|[]]; inversion H; subst. apply defined_ok.
         * apply set_entry_some_result in Hse. destruct Hse as [w Hw]; discriminate.
-        * split; [discriminate|]. intros t' o r [H|[]]; inversion H; subst. split; [discriminate|]. intros _.
+        * split; [np|]. intros t' o r [H|[]]; inversion H; subst. split; [discriminate|split; [|discriminate]]. intros _.
           apply set_entry_conflict in Hse. destruct Hse as (_ & ov & Hov & Hveq).
           exists l, n, v; split; auto.
           destruct (Hbind _ _ _ Hov) as [Hf | [t1 Hd]].
           -- rewrite (Hnd _ _ _ _ Hop) in Hf. discriminate.
           -- exists t1, ov; auto.
-      + inv_pair Hs. split; [discriminate|]. intros t' o r [H|[]]; inversion H; subst. split; discriminate.
+      + inv_pair Hs. split; [np|]. intros t' o r [H|[]]; inversion H; subst. apply bool_ok.
     - (* seg *)
       specialize (Hwf t). specialize (Hnp t).
       destruct (t_pc (st_thr st t)) eqn:Hpc0; cbn [seg] in Hs; cbn [pc_wf] in Hwf.
       + discriminate.
       + inv_pair Hs.
         use_outcome after_read_pc after_read_evs.
-      + inv_pair Hs. split; [discriminate|]. intros t' o r [H|[]]; inversion H; subst. apply found_ok.
-      + destruct (file_of cfg d n); [destruct (lockmap (st_sh st) d n)|]; inv_pair Hs; (split; [discriminate | intros ? ? ? []]).
+      + inv_pair Hs. split; [np|]. intros t' o r [H|[]]; inversion H; subst. apply found_ok.
+      + destruct (file_of cfg d n); [destruct (lockmap (st_sh st) d n)|]; inv_pair Hs; (split; [np | intros ? ? ? []]).
       + injection Hs as Hsh Hx. subst sh'.
         assert (Hx' : next_level t l n RdHole rest = (p', evs)) by exact Hx. clear Hx.
         use_outcome next_level_pc next_level_evs.
-      + destruct (held (st_sh st) lk); inv_pair Hs. split; [discriminate | intros ? ? ? []].
-      + destruct (get (st_sh st) d n); inv_pair Hs; (split; [discriminate | intros ? ? ? []]).
-      + inv_pair Hs. split; [discriminate | intros ? ? ? []].
-      + (* PMarked: the instantiator's SetEntry cannot conflict *)
+      + destruct (held (st_sh st) lk); inv_pair Hs. split; [np | intros ? ? ? []].
+      + destruct (get (st_sh st) d n); inv_pair Hs; (split; [np | intros ? ? ? []]).
+      + inv_pair Hs. split; [np | intros ? ? ? []].
+      + (* PMarked: the instantiator fails exactly when the file is broken (its SetEntry cannot conflict) *)
         destruct Hwf as (Hd & Hr & Hf).
         destruct (file_of cfg d n) as [fv|] eqn:Hfile; [|congruence].
+        destruct (file_bad cfg d n) eqn:Hbad.
+        { inv_pair Hs. split; [|intros ? ? ? [H|[]]; inversion H].
+          intros l0 n0 d0 lk0 rest0 Hp. inversion Hp; subst. exact Hbad. }
         destruct (set_entry (st_sh st) d n (Some fv)) as [sh1 [r1|]] eqn:Hse; inv_pair Hs.
-        * split; [discriminate | intros ? ? ? [H|[]]; inversion H].
+        * split; [np | intros ? ? ? [H|[]]; inversion H].
         * exfalso. apply set_entry_conflict in Hse. destruct Hse as (_ & ov & Hov & Hveq).
           destruct (Hbind _ _ _ Hov) as [Hf' | [t' Hdef]].
           -- rewrite Hfile in Hf'. inversion Hf'; subst. rewrite veq_refl in Hveq. discriminate.
           -- rewrite (Hnd _ _ _ _ Hdef) in Hfile. discriminate.
-      + destruct r as [e|]; [|exfalso; eapply Hnp; reflexivity]. inv_pair Hs.
-        use_outcome next_level_pc next_level_evs. }
+      + destruct Hwf as (Hd & Hr & _).
+        destruct r as [e|].
+        * inv_pair Hs. use_outcome next_level_pc next_level_evs.
+        * rewrite (Hnp _ _ _ _ _ eq_refl) in Hs. inv_pair Hs. split; [np|].
+          intros t' o r [H|[]]; inversion H; subst. split; [discriminate|split; [discriminate|]]. intros _.
+          exists l, n, d. repeat split; auto. apply (Hnp _ _ _ _ _ eq_refl). }
   destruct Hnew as [Hp' Hevs].
   split; cbn [st_thr st_log].
   - intros t0. destruct (Nat.eq_dec t0 t) as [->|Hne].
@@ -606,5 +631,5 @@ Qed.
    not equal - which every sequential order that runs that other Define first raises as well. *)
 Lemma no_fault cfg p s :
   no_define_over_file cfg p ->
-  forall t o r, In (EvRes t o r) (trace cfg p s) -> res_ok p o r.
+  forall t o r, In (EvRes t o r) (trace cfg p s) -> res_ok cfg p o r.
 Proof. intros Hnd. apply (inv2_exec cfg p s Hnd). Qed.
